@@ -5,6 +5,7 @@ import (
 	"fmt"
 	"github.com/jirenius/go-res/store"
 	"net/url"
+	"strconv"
 	"strings"
 	"time"
 
@@ -159,8 +160,15 @@ func c07QueryHandlerPatterns(c *core.Ctx) {
 					// a query resource: its changes are announced with query events on the resource itself
 					qh = store.QueryHandler{QueryStore: env.qs, Transformer: trans,
 						QueryRequestHandler: func(rname string, pp map[string]string, q url.Values) (url.Values, string, error) {
-							return idxQuery{Index: "k", Prefix: q.Get("prefix"), Limit: -1}.values(), "prefix=" + q.Get("prefix"), nil
+							lim, err := strconv.Atoi(q.Get("limit"))
+							if err != nil {
+								lim = -1
+							}
+							return idxQuery{Index: "k", Prefix: q.Get("prefix"), Limit: lim}.values(), fmt.Sprintf("prefix=%s&limit=%d", q.Get("prefix"), lim), nil
 						}}
+					if name == "" {
+						qh.Transformer = nil // the store's ids served as they are
+					}
 				}
 				rg.S.Handle(pattern, res.Collection, qh)
 			})
@@ -173,8 +181,29 @@ func c07QueryHandlerPatterns(c *core.Ctx) {
 					}
 					env.qs.Flush()
 					time.Sleep(5 * time.Millisecond)
+					// get requests, among them windows that are empty (limit 0, a prefix nothing has):
+					// the served collection is an array in every case
+					rname := mergeDots(name, c17Instantiate(newRand(7), pattern, false))
+					getInboxes := map[string]bool{}
+					for _, q := range []string{"", "prefix=&limit=1", "prefix=&limit=0", "prefix=zzz", "prefix=zzz&limit=0"} {
+						pl, _ := json.Marshal(map[string]string{"query": q})
+						start := rg.C.Len()
+						inbox, done, n := rg.send("get."+rname, pl)
+						getInboxes[inbox] = true
+						if n != 1 || !waitCh(done, 10*time.Second) {
+							continue
+						}
+						c.Obs("query_handler_gets", 1)
+						if resp, _ := replies(rg.C.Since(start), inbox); len(resp) == 1 {
+							for _, pr := range ref.ValidateGetResult(resp[0].Data, "collection") {
+								d := copyDesc(desc)
+								d["subject"], d["query"], d["response"] = "get."+rname, q, resp[0].Payload
+								c.Violation("C07/query-handler:get-result:"+c07ProbClass(pr), fmt.Sprintf("store.QueryHandler on %q answered get.%s (query %q) with %s: %s", pattern, rname, q, resp[0].Payload, pr), d)
+							}
+						}
+					}
 					for _, m := range rg.C.Log() {
-						kind, probs := ref.ValidateMessage(m.Subject, m.Data, ref.MsgCtx{})
+						kind, probs := ref.ValidateMessage(m.Subject, m.Data, ref.MsgCtx{Inboxes: func(s string) (bool, bool) { return false, getInboxes[s] }})
 						c.Obs("query_handler_messages_validated", 1)
 						for _, pr := range probs {
 							d := copyDesc(desc)
